@@ -84,7 +84,7 @@ def run(ctx, out):
     procs = []
     for k in range(nseeds):
         env = dict(os.environ, PYTHONHASHSEED=str(1000 + 37 * k + ctx.seed))
-        p = subprocess.Popen(["/venv/bin/python", "/verif/harness/det_worker.py"], stdin=subprocess.PIPE, stdout=subprocess.PIPE, stderr=subprocess.DEVNULL, env=env)
+        p = subprocess.Popen(["/venv/bin/python", os.path.join(os.path.dirname(os.path.dirname(os.path.abspath(__file__))), "det_worker.py")], stdin=subprocess.PIPE, stdout=subprocess.PIPE, stderr=subprocess.DEVNULL, env=env)
         procs.append(p)
     outs = []
     import threading
